@@ -14,9 +14,17 @@ class MemMapStorage(object):
         self.block_size = block_size
         self.file = file
         self.map = mmap.mmap(file.fileno(), access=mmap.ACCESS_READ, length=0)
+        self.cursor = 0
 
     # Method reading a block in the map and returning the contained node
-    def read(self, block):
+    def read(self, block=None):
+        # Mimicking the file cursor: reading without a block continues
+        # right after the last block read
+        if block is None:
+            block = self.cursor
+
+        self.cursor = block + self.block_size
+
         return self.map[block : block + self.block_size] or None
 
     # Method releasing the map from memory
